@@ -64,7 +64,7 @@ def rule_a(prog, rep):
     n = 0
     for name, f in handlers(crate):
         classify, _ = _classify_factory(crate, f)
-        tr = Tracer(crate, classify, closure_mode=task_mode)
+        tr = Tracer(crate, classify, closure_mode=task_mode, inline_local=False)
         paths = tr.run_fn(f)
         bad = []
         for (ex, t, v) in ok_exits(paths):
@@ -485,7 +485,7 @@ def rule_h(prog, rep):
         if short(c) == 'from_str' and 'serde_json' in c:
             return 'decode'
         return None
-    paths = Tracer(crate, classify, closure_mode=lambda c_, cl: 'inline').run_fn(f)
+    paths = Tracer(crate, classify, closure_mode=lambda c_, cl: "inline", inline_local=False).run_fn(f)
     problems = []
     n_disp = 0
     for (ex, t, v) in ok_exits(paths):
@@ -585,7 +585,7 @@ def rule_i(prog, rep):
                 if nd.get('k') == 'call' and nd['args'] and any(x.get('k') == 'path' and x.get('id') == sid for x in nd['args']):
                     return 'handoff'     # the channel is passed on (e.g. export_for_persistence(tx)): answered there
                 return None
-            tr = Tracer(crate, classify, closure_mode=lambda c_, cl: 'inline')
+            tr = Tracer(crate, classify, closure_mode=lambda c_, cl: "inline", inline_local=False)
             tr.env = {}
             bp = tr.expr(arm['body'])
             n += 1
